@@ -21,7 +21,13 @@ import (
 	"time"
 )
 
-const Root = "/verif"
+// Root is the verification workspace (VERIF_ROOT is set by ./check; default /verif).
+var Root = func() string {
+	if r := os.Getenv("VERIF_ROOT"); r != "" {
+		return r
+	}
+	return "/verif"
+}()
 
 // Witness is one violating case. Features are the structured description used to match
 // known-finding signatures; Case is whatever the check needs to replay it.
